@@ -22,8 +22,8 @@ RULE = ("case = (plug-in type, first two operations); inside, every continuation
 ASSUMPTIONS = ["method names are matched by the plug-ins themselves (built-ins lower-case them); the bare name 'default' is not exercised (the statement does not cover it)"]
 EXHAUSTIVE = {"quick": True, "thorough": True}
 BOUNDS = {"quick": {"length_all_types": 3}, "thorough": {"length_all_types": 4, "length_optimizer": 5}}
-REQUIRED = {"quick": {"histories": 30000, "ops_compared": 90000, "other_manager_probes": 30000, "__nontrivial__": 500},
-            "thorough": {"histories": 2000000, "ops_compared": 8000000, "other_manager_probes": 1000000, "__nontrivial__": 1000}}
+REQUIRED = {"quick": {"histories": 30000, "ops_compared": 90000, "other_manager_probes": 30000, "histories_after_a_registration_for_another_type": 10000, "__nontrivial__": 500},
+            "thorough": {"histories": 2000000, "ops_compared": 8000000, "other_manager_probes": 1000000, "histories_after_a_registration_for_another_type": 600000, "__nontrivial__": 1000}}
 TYPES = ["optimizer", "sampler", "realization_filter", "function_estimator", "plan_handler", "plan_step"]
 
 
@@ -146,10 +146,32 @@ def _probe_other(obs, other, ptype, baseline, probes):
     return True
 
 
-def _run_history(obs, ptype, seq, ops, uni, other, baseline, probes, probe_other):
+_PRISTINE = None
+
+
+def _pristine():
+    """Names a manager lists before this process registered anything anywhere (taken once, first thing in the worker)."""
+    global _PRISTINE  # noqa: PLW0603
+    if _PRISTINE is None:
+        from ropt.plugins import PluginManager  # noqa: PLC0415
+
+        pm = PluginManager()
+        _PRISTINE = {t: [n for n, _ in pm.plugins(t)] for t in TYPES}
+    return _PRISTINE
+
+
+def _run_history(obs, ptype, seq, ops, uni, other, baseline, probes, probe_other, elsewhere=False):
     from ropt.plugins import PluginManager  # noqa: PLC0415
 
     pm = PluginManager()
+    names = [n for n, _ in pm.plugins(ptype)]
+    if names != _pristine()[ptype]:
+        obs.violation("new_manager_lists_plugins_registered_on_another_manager", type=ptype, got=names, want=_pristine()[ptype])
+        return
+    if elsewhere:
+        # the manager has served another plug-in type before: the registries of the types are independent
+        pm.add_plugin(TYPES[(TYPES.index(ptype) + 1 + sum(seq) % (len(TYPES) - 1)) % len(TYPES)], "Elsewhere", uni["p3"], prioritize=False)
+        obs.count("histories_after_a_registration_for_another_type")
     model = Model(list(pm.plugins(ptype)))
     obs.count("histories")
     for k, oi in enumerate(seq):
@@ -182,6 +204,7 @@ def run_case(case, obs):
     from ropt.plugins import PluginManager  # noqa: PLC0415
 
     uni = _universe()
+    _pristine()
     if case["mode"] == "sampled":
         rng = rng_for(obs.seed, "c19", case["i"])
         ptype = TYPES[int(rng.integers(len(TYPES)))]
@@ -202,7 +225,7 @@ def run_case(case, obs):
     baseline = {g: _apply_real(other, ptype, ("get", g), None) for g in probes}
     n = 0
     for seq in seqs:
-        _run_history(obs, ptype, seq, ops, uni, other, baseline, probes, probe_other=(n % 7 == 0))
+        _run_history(obs, ptype, seq, ops, uni, other, baseline, probes, probe_other=(n % 7 == 0), elsewhere=(n % 3 == 1))
         kinds = {ops[x][0] for x in seq}
         n += 1
     _probe_other(obs, other, ptype, baseline, probes)
